@@ -172,16 +172,70 @@ static size_t sweep_gen(long idx, uint8_t *payload, char *human, size_t hn) {
 	static const char *pn[3] = {"occ/free all detector numbers", "multiple base x size x pattern", "position five-byte sweeps"};
 	payload[0] = (uint8_t) idx; snprintf(human, hn, "%s", pn[idx]); return 1;
 }
-void c19_register(void) { harness_register("c19.hist", hist_child); harness_register("c19.sweep", sweep_child); }
+/* ---------------------------------------------------------------- c19.sched (E1; plain + ASan)
+ * The receiver processes occ / free / multiple / position reports of the SecAck board while an application thread drains
+ * the user message queue (position reports are also delivered to it and the reader frees them at once) and another one
+ * sends and flushes.  All schedules up to the preemption bound: every report still gets exactly one mirror with the reported
+ * payload (a mirror built from a buffer that was already handed to the queue is a use-after-free under ASan and a payload
+ * difference in the plain build, where freed memory is perturbed). */
+#include <malloc.h>
+static void *sched_reader(void *arg) { (void) arg; for (int i = 0; i < 5; i++) { uint8_t *m = bidib_read_message(); if (m) { memset(m, 0xEE, 4); free(m); } } return NULL; }
+static void *sched_sender(void *arg) { (void) arg; t_bidib_node_address a = {1, 0, 0}; bidib_send_sys_ping(a, 0x77, 0); bidib_flush(); return NULL; }
+static void sched_child(const void *job, size_t n) {
+	vs_dev_t devs[VS_MAXDEV]; int nd; size_t pl; const uint8_t *p = job_parse(job, n, devs, &nd, &pl);
+	int variant = p[0];
+	hx_child_begin(devs, nd, 1, NULL, 0, 0);
+#ifdef VARIANT_PLAIN
+	mallopt(M_PERTURB, 0x5A);
+#endif
+	cfg_install_std(); SB.on_msg = NULL;
+	if (hx_start_normal(0)) res_infra("normal start failed");
+	hx_quiesce();
+	uint8_t *m; while ((m = bidib_read_message())) free(m); while ((m = bidib_read_error_message())) free(m);
+	memset(&S, 0, sizeof S); S.logpos = SB.nlog; SB.on_msg = quiet_bus;
+	vs_sleep_us(2500000); hx_quiesce();
+	/* the reports, queued as one burst */
+	static const int ORDER[2][4] = {{R_POS, R_OCC, R_POS, R_FREE}, {R_MULT8, R_POS, R_OCC, R_POS}};
+	for (int i = 0; i < 4; i++) { int r = ORDER[variant][i]; uint8_t d[24]; int dl = 0; uint8_t type = 0; S.counter++;
+		switch (r) {
+		case R_OCC: d[0] = 1; dl = 1; type = MSG_BM_OCC; expect_mirror(0, MSG_BM_MIRROR_OCC, d, 1); break;
+		case R_FREE: d[0] = 1; dl = 1; type = MSG_BM_FREE; expect_mirror(0, MSG_BM_MIRROR_FREE, d, 1); break;
+		case R_MULT8: d[0] = 0; d[1] = 8; d[2] = 0x05; dl = 3; type = MSG_BM_MULTIPLE; expect_mirror(0, MSG_BM_MIRROR_MULTIPLE, d, 3); break;
+		default: d[0] = 0x23; d[1] = 0x01; d[2] = 0; d[3] = (uint8_t) (0x30 + i); d[4] = 0x12; dl = 5; type = MSG_BM_POSITION; expect_mirror(0, MSG_BM_MIRROR_POSITION, d, 5); break;
+		}
+		uint8_t mm[40], f[90]; int ml = rc_build_msg(mm, SB.n[0].addr, 0, type, d, dl); env_push_quiet(f, rc_frame(f, mm, (size_t) ml, 1)); }
+	vs_window(1);
+	int t1 = vs_spawn(sched_reader, NULL), t2 = vs_spawn(sched_sender, NULL);
+	vs_join_tid(t1); vs_join_tid(t2); hx_quiesce();
+	vs_window(0);
+	bidib_flush(); hx_quiesce();
+	while ((m = bidib_read_message())) free(m);
+	hx_emit_san_events("c19.sched");
+	check_quiescent("after the burst of reports with concurrent queue reader and sender");
+	for (int b = 0; b < NB; b++) if (S.np[b]) res_violation("mirror-missing-after-burst", "%d mirror(s) still outstanding for %s", S.np[b], BNAME[b]);
+	hx_emit_ledger_violations("C19");
+	hx_hash_t h; hx_hash_init(&h); for (int i = 0; i < SB.nlog; i++) if (is_mirror(SB.log[i].type)) { hx_hash_add(&h, &SB.log[i].type, 1); hx_hash_add(&h, SB.log[i].data, (size_t) SB.log[i].dlen); }
+	res_printf("O %llx %llx\n", (unsigned long long) h.a, (unsigned long long) h.b);
+	hx_emit_trace(); res_finish();
+}
+void c19_register(void) { harness_register("c19.hist", hist_child); harness_register("c19.sweep", sweep_child); harness_register("c19.sched", sched_child); }
 int c19_run(const char *tier) {
 	int thorough = !strcmp(tier, "thorough");
+	const char *variant = getenv("VERIF_VARIANT"); int asan = variant && !strcmp(variant, "asan");
+	long sch = 0, sch_states = 0, sch_cp = 0; int sch_ex = 1;
+	int defvar = variant && (!strcmp(variant, "autop") || !strcmp(variant, "autoz"));      /* the schedule harness is not repeated in the definedness builds */
+	for (int v = 0; v < (defvar ? 0 : 2); v++) { uint8_t sp[1] = {(uint8_t) v}; char label[64]; snprintf(label, sizeof label, "c19.sched burst %d", v);
+		e1_spec_t es = { .harness = "c19.sched", .param = sp, .nparam = 1, .bound = thorough ? 2 : 1, .label = strdup(label) };
+		e1_explore(&es); for (int k = 0; k < 8; k++) sch += es.schedules_by_cost[k]; sch_states += es.distinct_outcomes; sch_cp += es.choice_points; if (!es.exhaustive) sch_ex = 0;
+		rep_note("%s (receiver || queue reader || sender): bound=%d completed=%d schedules by cost=[%ld,%ld,%ld,%ld] distinct outcomes=%ld contended=%ld", label, es.bound, es.completed_bound, es.schedules_by_cost[0], es.schedules_by_cost[1], es.schedules_by_cost[2], es.schedules_by_cost[3], es.distinct_outcomes, es.contended_execs); }
+	if (asan) { rep_count("states", sch_states); rep_count("transitions", sch_cp); rep_count("executions", sch); rep_flag("exhaustive", sch_ex); return 0; }   /* the ASan build runs the schedule harness only */
 	ex_spec_t sw = { .harness = "c19.sweep", .ncases = 3, .gen = sweep_gen, .label = "c19.sweep" };
 	ex_map(&sw);
 	uint8_t param[1] = {0}; const char *d = getenv("VERIF_DEPTH");
 	e2_spec_t s = { .harness = "c19.hist", .param = param, .nparam = 1, .nevents = EV_N, .max_depth = d ? atoi(d) : (thorough ? 7 : 5), .label = "c19.hist", .evname = evname };
 	e2_explore(&s);
-	rep_count("states", s.states + 3); rep_count("transitions", s.transitions + rep_get("sweep_cases")); rep_count("executions", s.execs + sw.done);
-	rep_flag("exhaustive", s.exhaustive && sw.exhaustive);
+	rep_count("states", s.states + 3 + sch_states); rep_count("transitions", s.transitions + rep_get("sweep_cases") + sch_cp); rep_count("executions", s.execs + sw.done + sch);
+	rep_flag("exhaustive", s.exhaustive && sw.exhaustive && sch_ex);
 	char sb[200]; size_t o = 0; for (int i = 0; i <= s.depth_completed + 1 && i < 16; i++) o += (size_t) snprintf(sb + o, sizeof sb - o, "%ld ", s.states_by_depth[i]);
 	rep_note("c19.hist: %d events, depth completed=%d, new states by depth: %s; payload sweep cases=%ld; observations of mirrors held by flow control=%ld", EV_N, s.depth_completed, sb, rep_get("sweep_cases"), rep_get("mirrors_held_then_released_cases"));
 	return 0;
